@@ -171,6 +171,10 @@ const char*
 psf_get_string (SF_PRIVATE *psf, int str_type)
 {	int k ;
 
+	/* Type 0 marks an unused slot, it is not a string type. */
+	if (str_type == 0 || psf->strings.storage == NULL)
+		return NULL ;
+
 	for (k = 0 ; k < SF_MAX_STRINGS ; k++)
 		if (str_type == psf->strings.data [k].type)
 			return psf->strings.storage + psf->strings.data [k].offset ;
